@@ -72,13 +72,14 @@ type propRun struct {
 	usedCt    map[string]bool // external contracts relied on
 	errors    []string
 	bounded   []*Obligation
+	trustedOwn []string
 }
 
 // collect generates everything that belongs to one property.
 func (s *Session) collect(prop string) *propRun {
 	pr := &propRun{prop: prop, assumed: map[string]bool{}, usedCt: map[string]bool{}}
 	for _, ct := range s.ownContracts() {
-		if !contractMentions(ct, prop) {
+		if !contractMentions(ct, prop) || ct.Trusted {
 			continue
 		}
 		vc, err := s.generate(ct)
@@ -108,6 +109,12 @@ func (s *Session) collect(prop string) *propRun {
 		}
 		if n > 0 {
 			pr.canaries = append(pr.canaries, vc.canaries...)
+		}
+	}
+	pr.obs = append(pr.obs, s.lemmaObligations(prop)...)
+	for _, n := range sortedKeys(pr.usedCt) {
+		if ct := s.g.spec.Contracts[n]; ct != nil && !ct.External && ct.Trusted {
+			pr.trustedOwn = append(pr.trustedOwn, n)
 		}
 	}
 	extra, err := s.extraObligations(prop)
@@ -278,6 +285,9 @@ func writeEvidence(s *Session, pr *propRun, tier string, seed, discharged, viola
 			assumptions = append(assumptions, "assumed contract of external "+n+" ("+ct.Source+")")
 		}
 	}
+	for _, n := range pr.trustedOwn {
+		assumptions = append(assumptions, "contract of package-main function "+n+" is used but its body is NOT verified yet (marked trusted)")
+	}
 	for _, n := range sortedKeys(pr.assumed) {
 		assumptions = append(assumptions, "external "+n+" assumed total, without effect on modelled state, result unconstrained")
 	}
@@ -371,6 +381,28 @@ func propsList() []string {
 	var out []string
 	for i := 1; i <= 20; i++ {
 		out = append(out, fmt.Sprintf("C%02d", i))
+	}
+	return out
+}
+
+// lemmaObligations: spec-level lemmas (over the axioms only) tagged with the property.
+func (s *Session) lemmaObligations(prop string) []*Obligation {
+	var out []*Obligation
+	for _, lm := range s.g.spec.Lemmas {
+		if !hasProp(lm.Props, prop) {
+			continue
+		}
+		vc := &FnVC{g: s.g, nameCount: map[string]int{}}
+		env := &Env{g: s.g, vars: map[string]*Term{}, where: lm.Line, st: NewState()}
+		for i, v := range lm.Vars {
+			env.vars[v] = Const("sk_"+v, lm.Sorts[i])
+		}
+		body, err := env.Parse(lm.Body)
+		ob := &Obligation{Name: "lemma/" + lm.Name, Fn: "lemma", Kind: "lemma", Props: lm.Props, Pos: lm.Line, Guard: True, Goal: body, Clause: lm.Body, vc: vc}
+		if err != nil {
+			ob.Result, ob.Raw, ob.vc = "error", err.Error(), nil
+		}
+		out = append(out, ob)
 	}
 	return out
 }
